@@ -1,3 +1,4 @@
+import Mutiny.Model.U32
 /-!
 # M2 `LockRing` — small-step model of `FullSyncMove<T, N>` + `ogre_sync::{lock, unlock}`
   (`/repo/src/ogre_std/ogre_queues/full_sync/full_sync_move.rs`, `/repo/src/ogre_std/ogre_sync.rs`)
@@ -30,13 +31,15 @@ inductive Loc where
   -- consumer: `consume_leaking_internal` + `consume_movable`
   | cLock
   | cSpin
-  | cLen                       -- `fs.len` (inside `available_elements_count`, flag held)
+  | cLenT                      -- `fs.len` (inside `available_elements_count`, flag held): load `tail`
+  | cLen                       -- `fs.len.head`: load `head`; anything to consume?  (under the flag nobody moves `tail` in between)
   | cEmptyUnlocked
   | cRead                      -- `fs.c.read`
   | cRelease (v : Nat)         -- `fs.c.release`: `head += 1`, `unlock()`
   | cUnlocked (v : Nat)
-  -- `available_elements_count` (no lock)
-  | lLen
+  -- `available_elements_count` (no lock): two plain loads, `tail` first
+  | lLen                       -- `fs.len`: load `tail`
+  | lLenH (tl : Nat)           -- `fs.len.head`: load `head`; `tail.overflowing_sub(head).0`
   deriving DecidableEq, Repr
 
 structure St where
@@ -72,7 +75,8 @@ def step (s : St) (t : Nat) : St :=
       setThr { s with tail := s.tail + 1, locked := false, accepted := s.accepted ++ [v] } t (.pUnlocked len)
   | .pUnlocked len => setThr s t (.done (.sent len))
   | .cLock | .cSpin =>
-      if s.locked then setThr s t .cSpin else setThr { s with locked := true } t .cLen
+      if s.locked then setThr s t .cSpin else setThr { s with locked := true } t .cLenT
+  | .cLenT => setThr s t .cLen
   | .cLen =>
       if s.tail - s.head > 0 then setThr s t .cRead
       else setThr { s with locked := false } t .cEmptyUnlocked
@@ -81,7 +85,9 @@ def step (s : St) (t : Nat) : St :=
   | .cRelease v =>
       setThr { s with head := s.head + 1, locked := false, delivered := s.delivered ++ [(t, s.head, v)] } t (.cUnlocked v)
   | .cUnlocked v => setThr s t (.done (.got v))
-  | .lLen => setThr s t (.done (.len (s.tail - s.head)))
+  | .lLen => setThr s t (.lLenH s.tail)
+  -- (`head` may have passed the `tail` loaded before: the `u32` difference then wraps, as the source's does)
+  | .lLenH tl => setThr s t (.done (.len (U32.wsub (U32.wrap tl) (U32.wrap s.head))))
 
 inductive Act where
   | send (t v : Nat)
@@ -116,12 +122,14 @@ def tagOf : Loc → Option (String × Nat)
   | .pUnlocked _ => some ("sync.unlocked", 0)
   | .cLock => some ("fs.c.lock", 0)
   | .cSpin => some ("sync.spin", 0)
-  | .cLen => some ("fs.len", 0)
+  | .cLenT => some ("fs.len", 0)
+  | .cLen => some ("fs.len.head", 0)
   | .cEmptyUnlocked => some ("sync.unlocked", 0)
   | .cRead => some ("fs.c.read", 0)
   | .cRelease _ => some ("fs.c.release", 0)
   | .cUnlocked _ => some ("sync.unlocked", 0)
   | .lLen => some ("fs.len", 0)
+  | .lLenH _ => some ("fs.len.head", 0)
   | _ => none
 
 def Res.show : Res → String
